@@ -1304,6 +1304,19 @@ func (in *Interp) execRange(st *State, x *ast.RangeStmt) (*State, bool) {
 			}
 		}
 	}
+	// write streams (a local bytes.Buffer) are updated in place: their length is loop-carried as well
+	streamSyms := map[int]*Term{}
+	for id, b := range body.bufs {
+		if b.Origin == "stream" {
+			s := in.freshSym(fmt.Sprintf("looplen:stream#%d", id))
+			streamSyms[id] = s
+			bufSyms[id] = s
+			nb := b.clone()
+			nb.Len = s
+			nb.Extent = s
+			body.bufs[id] = nb
+		}
+	}
 	// element binding
 	elemPath := listPath + "[*]"
 	if x.Value != nil {
@@ -1436,6 +1449,32 @@ func (in *Interp) execRange(st *State, x *ast.RangeStmt) (*State, bool) {
 				}
 			}
 		}
+	}
+	for id, s := range streamSyms {
+		ab, bb := after.bufs[id], before.bufs[id]
+		if ab == nil || bb == nil {
+			continue
+		}
+		d := ab.Len.Sub(s)
+		if d.IsZero() && len(ab.Recs) == len(bb.Recs) {
+			continue
+		}
+		if d.HasAtom(func(a *Atom) bool { return a.Kind == "opq" && strings.HasPrefix(a.Path, "looplen:") }) {
+			in.note(x.Pos(), "stream grows non-additively in the loop")
+		}
+		total := in.sumOver(listPath, listLen, elems, d, elemPath)
+		nb := bb.clone()
+		nb.Len = bb.Len.Add(total)
+		nb.Extent = nb.Len
+		for _, r := range ab.Recs[len(bb.Recs):] {
+			nr := *r
+			nr.Off = substSym(r.Off, s, bb.Len)
+			if nr.Loop == lc || nr.Loop == nil {
+				nr.Loop = &LoopCtx{List: listPath, Step: d, ID: lc.ID}
+			}
+			nb.Recs = append(nb.Recs, &nr)
+		}
+		res.bufs[id] = nb
 	}
 	// cursor-based buffers: records written in the loop carry the loop context
 	for id, ab := range after.bufs {
@@ -2282,6 +2321,13 @@ func (w *World) ProveX(a, b *Term, facts []Fact) bool {
 	if ok, _ := Prove(a, b, facts); ok {
 		return true
 	}
+	// min(x, y) is at most x and at most y
+	if mf := minFacts(a, b); len(mf) > 0 {
+		facts = append(append([]Fact(nil), facts...), mf...)
+		if ok, _ := Prove(a, b, facts); ok {
+			return true
+		}
+	}
 	ea, eb, ef := w.ExpandLens(a, 0), w.ExpandLens(b, 0), expandFacts(w, facts)
 	if ok, _ := Prove(ea, eb, ef); ok {
 		return true
@@ -2704,4 +2750,31 @@ func isMapType(t types.Type) bool {
 	}
 	_, ok := t.Underlying().(*types.Map)
 	return ok
+}
+
+// minFacts: for every min atom in the terms (also nested in another min's arguments), the two facts
+// min(x, y) <= x and min(x, y) <= y.
+func minFacts(ts ...*Term) []Fact {
+	var out []Fact
+	seen := map[string]bool{}
+	var walk func(t *Term)
+	walk = func(t *Term) {
+		if t == nil {
+			return
+		}
+		t.HasAtom(func(a *Atom) bool {
+			if a.Kind == "min" && len(a.Sub) == 2 && !seen[a.Key()] {
+				seen[a.Key()] = true
+				m := FromAtom(a)
+				out = append(out, Fact{L: m, R: a.Sub[0], Src: "min"}, Fact{L: m, R: a.Sub[1], Src: "min"})
+				walk(a.Sub[0])
+				walk(a.Sub[1])
+			}
+			return false
+		})
+	}
+	for _, t := range ts {
+		walk(t)
+	}
+	return out
 }
